@@ -286,7 +286,13 @@ impl<'a> FmtVisitor<'a> {
                     self.push_str(first_line);
                     self.push_str(&comment_indent.to_string_with_newline(self.config));
 
-                    let other_lines = &subslice[offset + 1..];
+                    // Behind a line comment a comment of its own starts: the blanks in front of
+                    // it are its indentation, not a part of it.
+                    let other_lines = if subslice.starts_with("//") {
+                        subslice[offset + 1..].trim_start()
+                    } else {
+                        &subslice[offset + 1..]
+                    };
                     let comment_str =
                         rewrite_comment(other_lines, false, comment_shape, self.config)
                             .unwrap_or_else(|_| String::from(other_lines));
